@@ -241,6 +241,7 @@ class Interp:
         self.builtins = self._mk_builtins()
         self.np = self._mk_np()
         self.call_hooks = {}  # qualname -> python function(interp, args, kwargs) overriding a package function
+        self.order_oracle = None  # optional: Poly difference -> sign (-1/0/1) or None; decides comparisons of symbolic integers
 
     # ------------------------------------------------------------------ path enumeration
     def explore(self, thunk, max_paths=256):
@@ -1066,6 +1067,10 @@ class Interp:
             if d.is_const():
                 c = d.const_value()
                 return {ast.Eq: c == 0, ast.NotEq: c != 0, ast.Lt: c < 0, ast.LtE: c <= 0, ast.Gt: c > 0, ast.GtE: c >= 0}[type(op)]
+            if self.order_oracle is not None:
+                sg = self.order_oracle(d)
+                if sg is not None:
+                    return {ast.Eq: sg == 0, ast.NotEq: sg != 0, ast.Lt: sg < 0, ast.LtE: sg <= 0, ast.Gt: sg > 0, ast.GtE: sg >= 0}[type(op)]
             if abs(d.const_value()) >= 2 ** 62 and isinstance(op, (ast.Eq, ast.NotEq)):
                 # assumption: positions/sizes are far below 2**62, so they never equal the reserved null
                 return isinstance(op, ast.NotEq)
@@ -1262,13 +1267,34 @@ class Interp:
         def _list(x=()):
             return list(I.iterate(x))
 
+        def _pick(vals, want_max):
+            best = vals[0]
+            for v in vals[1:]:
+                pa, pb = topoly(v), topoly(best)
+                if pa is None or pb is None:
+                    raise AnalysisError(f"peval: min/max over non-integers {vals!r}")
+                d = pa - pb
+                if d.is_const():
+                    sg = (d.const_value() > 0) - (d.const_value() < 0)
+                else:
+                    sg = I.order_oracle(d) if I.order_oracle is not None else None
+                    if sg is None:
+                        raise AnalysisError(f"peval: min/max of symbolic values {v!r}, {best!r} is not decided by the abstract state")
+                if (sg > 0) == want_max and sg != 0:
+                    best = v
+            return best
+
         def _min(*a):
             vals = I.iterate(a[0]) if len(a) == 1 else list(a)
-            return min(vals)
+            if all(isinstance(x, (int, float)) and not isinstance(x, bool) for x in vals):
+                return min(vals)
+            return _pick(list(vals), False)
 
         def _max(*a):
             vals = I.iterate(a[0]) if len(a) == 1 else list(a)
-            return max(vals)
+            if all(isinstance(x, (int, float)) and not isinstance(x, bool) for x in vals):
+                return max(vals)
+            return _pick(list(vals), True)
 
         def _str(x=""):
             return format(x, "") if isinstance(x, (Sym, Opaque, Obj, ClassVal)) else str(x)
